@@ -320,7 +320,10 @@ def check_ops_translate_expression(ctx: Ctx, te: FuncInfo):
     # BoolOp and unary not
     bo = [x for x in walk_no_nested(te.node) if isinstance(x, ast.IfExp) and "ast.And" in norm(x.test)]
     ok = len(bo) == 1 and norm(bo[0].body) == "And" and norm(bo[0].orelse) == "Or" and norm(bo[0].test) == f"isinstance({var}.op, ast.And)"
-    ctx.check(ok, "DP-OPS", te, "`and` -> And, `or` -> Or", "", "the boolean operator is mapped to the wrong connective", bo[0] if bo else te.node)
+    if len(bo) != 1:
+        ctx.undecided(te.short, "`and` -> And, `or` -> Or: the connective is not selected by one conditional expression on the operator's class")
+    else:
+        ctx.check(ok, "DP-OPS", te, "`and` -> And, `or` -> Or", "", f"`{norm(bo[0])}`: the boolean operator is mapped to the wrong connective", bo[0])
     unf = te.nested.get("unfold")
     if unf is None:
         raise AnchorError(TE + ".unfold", "not found")
